@@ -2078,10 +2078,13 @@ impl<'a> World<'a> {
                 .as_ref()
                 .and_then(|name| self.groups.iter().find(|g| &g.name == name));
             if let Some(g) = g {
-                if self.member_epoch.get(&addr).copied().unwrap_or(0) != self.group_epoch.get(&g.name).copied().unwrap_or(0) {
+                if self.member_epoch.get(&addr).copied().unwrap_or(0)
+                    != self.group_epoch.get(&g.name).copied().unwrap_or(0)
+                {
                     // the group was re-configured after this member took its values from it: whether
                     // existing members follow is not said
-                    self.rep.count("unjudged:setup:member-of-a-group-updated-later");
+                    self.rep
+                        .count("unjudged:setup:member-of-a-group-updated-later");
                     return;
                 }
             }
@@ -2090,13 +2093,19 @@ impl<'a> World<'a> {
             .live(&addr)
             .into_iter()
             .filter(|i| *i != id && self.conns[*i].dynamic)
-            .find_map(|i| self.conns[i].group.clone().map(|g| (g, self.conns[i].group_epoch)))
+            .find_map(|i| {
+                self.conns[i]
+                    .group
+                    .clone()
+                    .map(|g| (g, self.conns[i].group_epoch))
+            })
             .filter(|(g, ep)| self.group_epoch.get(g).copied().unwrap_or(0) != *ep)
         {
             // it stays part of that older instance for whoever joins next
             self.conns[id].group = Some(gname);
             self.conns[id].group_epoch = gep;
-            self.rep.count("unjudged:setup:instance-of-a-group-updated-later");
+            self.rep
+                .count("unjudged:setup:instance-of-a-group-updated-later");
             return;
         } else if let Some(gname) = self
             .live(&addr)
@@ -2109,7 +2118,11 @@ impl<'a> World<'a> {
                 .count("setup:second-connection-of-dynamic-neighbour");
             // which group that was is only known as a best guess (overlapping prefixes): the
             // recorded one (its prefix may be gone meanwhile) or any group that contains the address
-            let containing: BTreeSet<usize> = self.containing(&addr).into_iter().map(|(gi, _)| gi).collect();
+            let containing: BTreeSet<usize> = self
+                .containing(&addr)
+                .into_iter()
+                .map(|(gi, _)| gi)
+                .collect();
             self.groups
                 .iter()
                 .enumerate()
@@ -2203,7 +2216,11 @@ impl<'a> World<'a> {
         }
         // a group that went through UpdatePeerGroup is involved (as the group of the neighbour or as
         // one of several overlapping candidates): that call is then part of the finding's identity
-        let updated_group = cands.iter().any(|c| c.group.as_ref().is_some_and(|g| self.group_epoch.get(g).copied().unwrap_or(0) > 0));
+        let updated_group = cands.iter().any(|c| {
+            c.group
+                .as_ref()
+                .is_some_and(|g| self.group_epoch.get(g).copied().unwrap_or(0) > 0)
+        });
         let tag = if self.src.get(&addr).copied() == Some("update") && best.kind != "dynamic" {
             "update"
         } else if updated_group {
@@ -2218,7 +2235,10 @@ impl<'a> World<'a> {
         let mut folded: Option<(String, String)> = None;
         // differences that remain next to a folded finding (an independent local-AS problem)
         let mut rest: Vec<(String, String)> = Vec::new();
-        let only_as = |d: &Vec<(String, String)>| d.iter().all(|(f, _)| f.starts_with("local-as/") || f.starts_with("open-as/"));
+        let only_as = |d: &Vec<(String, String)>| {
+            d.iter()
+                .all(|(f, _)| f.starts_with("local-as/") || f.starts_with("open-as/"))
+        };
         if !diffs.is_empty() && tag == "update" {
             if let Some(n) = self.statics.get(&addr) {
                 let alt_d = diff(&expectation(&self.confed, Some(n), None, &addr), &obs);
@@ -2245,7 +2265,14 @@ impl<'a> World<'a> {
                 n.group
                     .as_ref()
                     .and_then(|name| self.groups.iter().find(|g| &g.name == name))
-                    .map(|g| vec![expectation(&self.confed, Some(n), Some(&alt_group(g)), &addr)])
+                    .map(|g| {
+                        vec![expectation(
+                            &self.confed,
+                            Some(n),
+                            Some(&alt_group(g)),
+                            &addr,
+                        )]
+                    })
                     .unwrap_or_default()
             } else {
                 cands
@@ -2255,7 +2282,11 @@ impl<'a> World<'a> {
                     .map(|g| expectation(&self.confed, None, Some(&alt_group(g)), &addr))
                     .collect()
             };
-            let alt_ds: Vec<Vec<(String, String)>> = alts.iter().map(|a| diff(a, &obs)).filter(|d| only_as(d) && d.len() < diffs.len()).collect();
+            let alt_ds: Vec<Vec<(String, String)>> = alts
+                .iter()
+                .map(|a| diff(a, &obs))
+                .filter(|d| only_as(d) && d.len() < diffs.len())
+                .collect();
             if let Some(d) = alt_ds.into_iter().min_by_key(|d| d.len()) {
                 rest = d;
                 folded = Some((
@@ -2268,7 +2299,10 @@ impl<'a> World<'a> {
             let w = self.witness(vec![
                 ("address", Json::s(addr.to_string())),
                 ("role", Json::s(role_name(role))),
-                ("all_differences", Json::strs(diffs.iter().map(|d| d.1.clone()))),
+                (
+                    "all_differences",
+                    Json::strs(diffs.iter().map(|d| d.1.clone())),
+                ),
                 ("expected", Json::s(format!("{:x?}", best))),
                 ("observed", Json::s(format!("{:x?}", obs))),
             ]);
@@ -2293,7 +2327,11 @@ impl<'a> World<'a> {
                 || field.starts_with("role/")
                 || field.starts_with("open-as/")
             {
-                if tag.starts_with("update") { format!("C16/setup/{}/{}", field, tag) } else { format!("C16/setup/{}", field) }
+                if tag.starts_with("update") {
+                    format!("C16/setup/{}/{}", field, tag)
+                } else {
+                    format!("C16/setup/{}", field)
+                }
             } else if field == "hold-time" {
                 format!("C16/setup/{}/{}/{}", field, from(best.hold_from_group), tag)
             } else if [
@@ -2324,10 +2362,18 @@ impl<'a> World<'a> {
             self.rep.sample(w);
         }
         // (a folded finding: drive the session with what the daemon actually expects)
-        self.conns[id].peer_as = if folded.is_some() { obs.expected_as } else { best.peer_as };
+        self.conns[id].peer_as = if folded.is_some() {
+            obs.expected_as
+        } else {
+            best.peer_as
+        };
         self.conns[id].group = best.group.clone();
         self.conns[id].tag = tag;
-        self.conns[id].group_epoch = best.group.as_ref().and_then(|g| self.group_epoch.get(g).copied()).unwrap_or(0);
+        self.conns[id].group_epoch = best
+            .group
+            .as_ref()
+            .and_then(|g| self.group_epoch.get(g).copied())
+            .unwrap_or(0);
         // ---- drive the OPEN exchange from the client side
         let drive = match drive {
             Drive::Establish if obs.open_hold < 30 => Drive::Silent,
@@ -2412,11 +2458,18 @@ impl<'a> World<'a> {
                         ("sent_as", Json::Int(my_as as i128)),
                     ]);
                     let sig = if self.conns[id].tag.starts_with("update") {
-                        format!("C16/setup/expected-as/other-as-accepted/{}", self.conns[id].tag)
+                        format!(
+                            "C16/setup/expected-as/other-as-accepted/{}",
+                            self.conns[id].tag
+                        )
                     } else {
                         "C16/setup/expected-as/other-as-accepted".to_string()
                     };
-                    self.rep.violation(&sig, "an OPEN from an AS other than the configured one was acknowledged", w);
+                    self.rep.violation(
+                        &sig,
+                        "an OPEN from an AS other than the configured one was acknowledged",
+                        w,
+                    );
                 } else {
                     self.rep.count("drive:open-acknowledged");
                 }
@@ -2632,7 +2685,11 @@ impl<'a> World<'a> {
         match r {
             Ok(_) => {
                 self.src.insert(n.addr, "grpc");
-                let ep = n.group.as_ref().and_then(|g| self.group_epoch.get(g).copied()).unwrap_or(0);
+                let ep = n
+                    .group
+                    .as_ref()
+                    .and_then(|g| self.group_epoch.get(g).copied())
+                    .unwrap_or(0);
                 self.member_epoch.insert(n.addr, ep);
                 self.statics.insert(n.addr, n);
             }
@@ -2647,14 +2704,26 @@ impl<'a> World<'a> {
     /// UpdatePeer: re-configure an existing neighbour, then look at the session that exists afterwards
     async fn op_update(&mut self, new: NeighGen, fields: Vec<&'static str>, rng: &mut Rng) {
         let addr = new.addr;
-        let Some(old) = self.statics.get(&addr).cloned() else { return };
+        let Some(old) = self.statics.get(&addr).cloned() else {
+            return;
+        };
         let before: Vec<usize> = self.live(&addr);
-        self.log(format!("update neighbour {} fields {:?} -> {:?}", addr, fields, new));
+        self.log(format!(
+            "update neighbour {} fields {:?} -> {:?}",
+            addr, fields, new
+        ));
         self.rep.count("op:update");
-        self.rep.count(if before.is_empty() { "update:while-idle" } else { "update:while-connected" });
+        self.rep.count(if before.is_empty() {
+            "update:while-idle"
+        } else {
+            "update:while-connected"
+        });
         let r = self
             .svc
-            .update_peer(tonic::Request::new(api::UpdatePeerRequest { peer: Some(neigh_api(&new)), do_soft_reset_in: false }))
+            .update_peer(tonic::Request::new(api::UpdatePeerRequest {
+                peer: Some(neigh_api(&new)),
+                do_soft_reset_in: false,
+            }))
             .await;
         if let Err(e) = r {
             self.rep.count("update:refused");
@@ -2667,16 +2736,30 @@ impl<'a> World<'a> {
         for f in &fields {
             self.rep.count(&format!("update:field:{}", f));
         }
-        self.rep.count(if fields.len() > 1 { "update:several-fields" } else { "update:one-field" });
+        self.rep.count(if fields.len() > 1 {
+            "update:several-fields"
+        } else {
+            "update:one-field"
+        });
         // ---- administrative state: decided from the peer table right away
-        let actual_down = self.global.read().await.peers.get(&addr).map(|p| p.admin_down);
+        let actual_down = self
+            .global
+            .read()
+            .await
+            .peers
+            .get(&addr)
+            .map(|p| p.admin_down);
         let mut model = new.clone();
         if let Some(actual) = actual_down {
             if new.admin_down != old.admin_down {
                 self.rep.eval();
                 self.rep.count("update:admin-state-judged");
                 if actual != new.admin_down {
-                    let w = self.witness(vec![("address", Json::s(addr.to_string())), ("configured_admin_down", Json::Bool(new.admin_down)), ("actual_admin_down", Json::Bool(actual))]);
+                    let w = self.witness(vec![
+                        ("address", Json::s(addr.to_string())),
+                        ("configured_admin_down", Json::Bool(new.admin_down)),
+                        ("actual_admin_down", Json::Bool(actual)),
+                    ]);
                     self.rep.violation(
                         "C16/setup/admin-state/update",
                         "UpdatePeer returned successfully but the neighbour's administrative state is not the configured one",
@@ -2688,7 +2771,11 @@ impl<'a> World<'a> {
             model.admin_down = actual;
         }
         self.src.insert(addr, "update");
-        let ep = model.group.as_ref().and_then(|g| self.group_epoch.get(g).copied()).unwrap_or(0);
+        let ep = model
+            .group
+            .as_ref()
+            .and_then(|g| self.group_epoch.get(g).copied())
+            .unwrap_or(0);
         self.member_epoch.insert(addr, ep);
         self.statics.insert(addr, model.clone());
         // ---- sessions that existed: told to shut down (the handler's own decision) or kept
@@ -2719,9 +2806,17 @@ impl<'a> World<'a> {
         }
         // ---- the first session after the update carries the new configuration
         let live = self.live(&addr);
-        let mut role = if rng.chance(7, 10) { Role::Passive } else { Role::Active };
+        let mut role = if rng.chance(7, 10) {
+            Role::Passive
+        } else {
+            Role::Active
+        };
         if live.iter().any(|i| self.conns[*i].role == role) {
-            let other = if role == Role::Passive { Role::Active } else { Role::Passive };
+            let other = if role == Role::Passive {
+                Role::Active
+            } else {
+                Role::Passive
+            };
             if live.iter().any(|i| self.conns[*i].role == other) {
                 let i = *live.iter().find(|i| self.conns[**i].role == role).unwrap();
                 self.op_disconnect(i).await;
@@ -2733,19 +2828,35 @@ impl<'a> World<'a> {
             return;
         }
         self.rep.count("update:probe-session");
-        let drive = if rng.chance(1, 3) { Drive::Establish } else { Drive::Silent };
+        let drive = if rng.chance(1, 3) {
+            Drive::Establish
+        } else {
+            Drive::Silent
+        };
         self.op_connect(addr, role, drive, None, true).await;
     }
 
     /// UpdatePeerGroup, then a new dynamic neighbour of that group
-    async fn op_update_group(&mut self, gi: usize, c: Common, fields: Vec<&'static str>, rng: &mut Rng) {
+    async fn op_update_group(
+        &mut self,
+        gi: usize,
+        c: Common,
+        fields: Vec<&'static str>,
+        rng: &mut Rng,
+    ) {
         let mut g = self.groups[gi].clone();
         g.c = c;
-        self.log(format!("update group {} fields {:?} -> {:?}", g.name, fields, g.c));
+        self.log(format!(
+            "update group {} fields {:?} -> {:?}",
+            g.name, fields, g.c
+        ));
         self.rep.count("op:update-group");
         let r = self
             .svc
-            .update_peer_group(tonic::Request::new(api::UpdatePeerGroupRequest { peer_group: Some(group_api(&g)), do_soft_reset_in: false }))
+            .update_peer_group(tonic::Request::new(api::UpdatePeerGroupRequest {
+                peer_group: Some(group_api(&g)),
+                do_soft_reset_in: false,
+            }))
             .await;
         if let Err(e) = r {
             self.rep.count("update-group:refused");
@@ -2762,11 +2873,19 @@ impl<'a> World<'a> {
             .universe
             .iter()
             .copied()
-            .filter(|a| !self.statics.contains_key(a) && self.live(a).is_empty() && self.groups[gi].prefixes.iter().any(|p| ref_contains(p, a)))
+            .filter(|a| {
+                !self.statics.contains_key(a)
+                    && self.live(a).is_empty()
+                    && self.groups[gi].prefixes.iter().any(|p| ref_contains(p, a))
+            })
             .collect();
         if let Some(a) = cand.first().copied() {
             self.rep.count("update-group:probe-session");
-            let role = if rng.chance(7, 10) { Role::Passive } else { Role::Active };
+            let role = if rng.chance(7, 10) {
+                Role::Passive
+            } else {
+                Role::Active
+            };
             self.op_connect(a, role, Drive::Silent, None, true).await;
         }
     }
@@ -2860,8 +2979,19 @@ impl<'a> World<'a> {
 }
 
 /// change one field (mostly) or several of a neighbour's / group's common part
-fn mutate_common(rng: &mut Rng, c: &mut Common, for_group: bool, v6: bool, confed: bool, fields: &mut Vec<&'static str>) {
-    let n = if rng.chance(7, 10) { 1 } else { rng.range(2, 4) };
+fn mutate_common(
+    rng: &mut Rng,
+    c: &mut Common,
+    for_group: bool,
+    v6: bool,
+    confed: bool,
+    fields: &mut Vec<&'static str>,
+) {
+    let n = if rng.chance(7, 10) {
+        1
+    } else {
+        rng.range(2, 4)
+    };
     for _ in 0..n {
         match rng.below(13) {
             0 | 1 => {
@@ -2892,7 +3022,11 @@ fn mutate_common(rng: &mut Rng, c: &mut Common, for_group: bool, v6: bool, confe
                 fields.push("passive");
             }
             5 => {
-                c.fams = if rng.chance(1, 5) { vec![] } else { gen_fams(rng, v6, !for_group) };
+                c.fams = if rng.chance(1, 5) {
+                    vec![]
+                } else {
+                    gen_fams(rng, v6, !for_group)
+                };
                 c.gr = None;
                 fields.push("families");
             }
@@ -2907,7 +3041,13 @@ fn mutate_common(rng: &mut Rng, c: &mut Common, for_group: bool, v6: bool, confe
                         c.fams[k].send_max = match c.fams[k].send_max {
                             0 => 4,
                             4 => 16,
-                            _ => if rng.bool() { 4 } else { 0 },
+                            _ => {
+                                if rng.bool() {
+                                    4
+                                } else {
+                                    0
+                                }
+                            }
                         };
                         fields.push("addpath-send-max");
                     }
@@ -2986,7 +3126,10 @@ fn gen_update(rng: &mut Rng, old: &NeighGen, confed: bool) -> (NeighGen, Vec<&'s
         1 => {
             n.export = match &n.export {
                 None => Some((rng.bool(), vec![POLICIES[rng.usize(3)].to_string()])),
-                Some((rej, names)) if names.len() < 2 => Some((!*rej, vec![POLICIES[0].to_string(), POLICIES[2].to_string()])),
+                Some((rej, names)) if names.len() < 2 => Some((
+                    !*rej,
+                    vec![POLICIES[0].to_string(), POLICIES[2].to_string()],
+                )),
                 Some(_) => None,
             };
             fields.push("export-policy");
@@ -3646,14 +3789,23 @@ fn told_to_close(arb: &Arc<std::sync::Mutex<ConnArbiter>>, role: Role) -> bool {
     }
 }
 
-async fn conc_pair(l4: &TcpListener, addr: IpAddr, role: Role) -> Result<(TcpStream, TcpStream), String> {
+async fn conc_pair(
+    l4: &TcpListener,
+    addr: IpAddr,
+    role: Role,
+) -> Result<(TcpStream, TcpStream), String> {
     match role {
         Role::Passive => {
             let la = l4.local_addr().map_err(|e| e.to_string())?;
             let mut last = String::new();
             for _ in 0..200 {
                 let sock = TcpSocket::new_v4().map_err(|e| e.to_string())?;
-                let shortage = |e: &std::io::Error| matches!(e.kind(), std::io::ErrorKind::AddrInUse | std::io::ErrorKind::AddrNotAvailable);
+                let shortage = |e: &std::io::Error| {
+                    matches!(
+                        e.kind(),
+                        std::io::ErrorKind::AddrInUse | std::io::ErrorKind::AddrNotAvailable
+                    )
+                };
                 if let Err(e) = sock.bind(SocketAddr::new(addr, 0)) {
                     if shortage(&e) {
                         last = e.to_string();
@@ -3662,7 +3814,9 @@ async fn conc_pair(l4: &TcpListener, addr: IpAddr, role: Role) -> Result<(TcpStr
                     }
                     return Err(format!("bind {}: {}", addr, e));
                 }
-                let (c, s) = tokio::join!(sock.connect(la), async { tokio::time::timeout(Duration::from_secs(5), l4.accept()).await });
+                let (c, s) = tokio::join!(sock.connect(la), async {
+                    tokio::time::timeout(Duration::from_secs(5), l4.accept()).await
+                });
                 let c = match c {
                     Ok(c) => c,
                     Err(e) if shortage(&e) => {
@@ -3683,9 +3837,13 @@ async fn conc_pair(l4: &TcpListener, addr: IpAddr, role: Role) -> Result<(TcpStr
             Err(format!("no ephemeral port: {}", last))
         }
         Role::Active => {
-            let l = crate::verif_hooks::bind_retry(SocketAddr::new(addr, 0)).await.map_err(|e| e.to_string())?;
+            let l = crate::verif_hooks::bind_retry(SocketAddr::new(addr, 0))
+                .await
+                .map_err(|e| e.to_string())?;
             let la = l.local_addr().map_err(|e| e.to_string())?;
-            let (d, c) = tokio::join!(crate::verif_hooks::connect_retry(la), async { tokio::time::timeout(Duration::from_secs(110), l.accept()).await });
+            let (d, c) = tokio::join!(crate::verif_hooks::connect_retry(la), async {
+                tokio::time::timeout(Duration::from_secs(110), l.accept()).await
+            });
             let d = d.map_err(|e| e.to_string())?;
             let (c, _) = match c {
                 Ok(Ok(x)) => x,
@@ -3739,9 +3897,20 @@ async fn conc_round(rng: &mut Rng, rep: &mut Report, index: u64, trace: bool) {
     ];
     let kind = *rng.pick(&kinds);
     let mode = rng.below(6);
-    let addr = IpAddr::V4(Ipv4Addr::new(127, rng.range(1, 254) as u8, rng.below(256) as u8, rng.range(1, 254) as u8));
+    let addr = IpAddr::V4(Ipv4Addr::new(
+        127,
+        rng.range(1, 254) as u8,
+        rng.below(256) as u8,
+        rng.range(1, 254) as u8,
+    ));
     // ---- configuration
-    let mut n1 = NeighGen { addr, c: gen_common(rng, false, false, false, false), group: None, admin_down: kind == ConcKind::Enable, export: None };
+    let mut n1 = NeighGen {
+        addr,
+        c: gen_common(rng, false, false, false, false),
+        group: None,
+        admin_down: kind == ConcKind::Enable,
+        export: None,
+    };
     if n1.c.peer_as == 0 {
         n1.c.peer_as = 65002;
     }
@@ -3749,13 +3918,24 @@ async fn conc_round(rng: &mut Rng, rep: &mut Report, index: u64, trace: bool) {
     n2.admin_down = false;
     n2.c.hold = Some(*rng.pick(&[33u32, 77, 1234]));
     n2.c.peer_as = *rng.pick(&[65002u32, 65003, 65100]);
-    let mut g0 = GroupGen { name: "g0".into(), c: gen_common(rng, true, false, false, false), prefixes: vec![] };
-    let mut g1 = GroupGen { name: "g1".into(), c: gen_common(rng, true, false, false, false), prefixes: vec![] };
+    let mut g0 = GroupGen {
+        name: "g0".into(),
+        c: gen_common(rng, true, false, false, false),
+        prefixes: vec![],
+    };
+    let mut g1 = GroupGen {
+        name: "g1".into(),
+        c: gen_common(rng, true, false, false, false),
+        prefixes: vec![],
+    };
     g1.c.hold = Some(*rng.pick(&[44u32, 88]));
     let (_, bits) = addr_bits(&addr);
     let plen = rng.range(9, 32) as u8;
     let pfx = prefix_of(false, bits, plen);
-    let dynamic = matches!(kind, ConcKind::DelPrefix | ConcKind::AddPrefix | ConcKind::MovePrefix);
+    let dynamic = matches!(
+        kind,
+        ConcKind::DelPrefix | ConcKind::AddPrefix | ConcKind::MovePrefix
+    );
     // a Delete round may leave the address covered by a dynamic prefix (clause (b) is then not judged)
     let covered = kind == ConcKind::Delete && rng.chance(1, 4);
     if matches!(kind, ConcKind::DelPrefix | ConcKind::MovePrefix) || covered {
@@ -3766,41 +3946,68 @@ async fn conc_round(rng: &mut Rng, rep: &mut Report, index: u64, trace: bool) {
     let (btx, _brx) = mpsc::unbounded_channel();
     let tables: TableHandle = Arc::new(TableManager::new(1));
     let global: GlobalHandle = Arc::new(tokio::sync::RwLock::new(Global::new(ktx, btx)));
-    let svc = Arc::new(GrpcService::new(Arc::new(tokio::sync::Notify::new()), active_tx.clone(), global.clone(), tables.clone()));
+    let svc = Arc::new(GrpcService::new(
+        Arc::new(tokio::sync::Notify::new()),
+        active_tx.clone(),
+        global.clone(),
+        tables.clone(),
+    ));
     let mut steps: Vec<String> = Vec::new();
     let load: Result<(), String> = async {
         svc.start_bgp(tonic::Request::new(api::StartBgpRequest {
-            global: Some(api::Global { asn: GLOBAL_AS, router_id: router_id().to_string(), listen_port: -1, ..Default::default() }),
+            global: Some(api::Global {
+                asn: GLOBAL_AS,
+                router_id: router_id().to_string(),
+                listen_port: -1,
+                ..Default::default()
+            }),
         }))
         .await
         .map_err(|e| e.to_string())?;
         for g in [&g0, &g1] {
-            svc.add_peer_group(tonic::Request::new(api::AddPeerGroupRequest { peer_group: Some(group_api(g)) })).await.map_err(|e| e.to_string())?;
+            svc.add_peer_group(tonic::Request::new(api::AddPeerGroupRequest {
+                peer_group: Some(group_api(g)),
+            }))
+            .await
+            .map_err(|e| e.to_string())?;
             for p in &g.prefixes {
                 svc.add_dynamic_neighbor(tonic::Request::new(api::AddDynamicNeighborRequest {
-                    dynamic_neighbor: Some(api::DynamicNeighbor { prefix: p.text.clone(), peer_group: g.name.clone() }),
+                    dynamic_neighbor: Some(api::DynamicNeighbor {
+                        prefix: p.text.clone(),
+                        peer_group: g.name.clone(),
+                    }),
                 }))
                 .await
                 .map_err(|e| e.to_string())?;
             }
         }
         if !dynamic && kind != ConcKind::Add {
-            svc.add_peer(tonic::Request::new(api::AddPeerRequest { peer: Some(neigh_api(&n1)) })).await.map_err(|e| e.to_string())?;
+            svc.add_peer(tonic::Request::new(api::AddPeerRequest {
+                peer: Some(neigh_api(&n1)),
+            }))
+            .await
+            .map_err(|e| e.to_string())?;
         }
         Ok(())
     }
     .await;
     if let Err(e) = load {
-        rep.inconclusive(&format!("harness: concurrent round configuration not loadable: {}", e));
+        rep.inconclusive(&format!(
+            "harness: concurrent round configuration not loadable: {}",
+            e
+        ));
         return;
     }
-    let l4 = match crate::verif_hooks::bind_retry(SocketAddr::new(IpAddr::V4(Ipv4Addr::LOCALHOST), 0)).await {
-        Ok(l) => l,
-        Err(e) => {
-            rep.inconclusive(&format!("harness: bind: {}", e));
-            return;
-        }
-    };
+    let l4 =
+        match crate::verif_hooks::bind_retry(SocketAddr::new(IpAddr::V4(Ipv4Addr::LOCALHOST), 0))
+            .await
+        {
+            Ok(l) => l,
+            Err(e) => {
+                rep.inconclusive(&format!("harness: bind: {}", e));
+                return;
+            }
+        };
     // ---- the connections (built before anything races)
     let roles: Vec<Role> = match rng.below(4) {
         0 => vec![Role::Active],
@@ -3812,7 +4019,10 @@ async fn conc_round(rng: &mut Rng, rep: &mut Report, index: u64, trace: bool) {
         match conc_pair(&l4, addr, *r).await {
             Ok(p) => pairs.push((*r, p)),
             Err(e) => {
-                rep.inconclusive(&format!("harness: cannot build a loopback connection: {}", e));
+                rep.inconclusive(&format!(
+                    "harness: cannot build a loopback connection: {}",
+                    e
+                ));
                 return;
             }
         }
@@ -3835,30 +4045,51 @@ async fn conc_round(rng: &mut Rng, rep: &mut Report, index: u64, trace: bool) {
     let spawn_accepts = |pairs: Vec<(Role, (TcpStream, TcpStream))>| {
         let mut hs = Vec::new();
         for (role, (client, server)) in pairs {
-            let (g, t, atx, seq) = (global.clone(), tables.clone(), active_tx.clone(), seq.clone());
+            let (g, t, atx, seq) = (
+                global.clone(),
+                tables.clone(),
+                active_tx.clone(),
+                seq.clone(),
+            );
             hs.push(tokio::spawn(async move {
                 let start = seq.fetch_add(1, Ordering::SeqCst);
                 let res = accept_connection(&g, &t, server, role).await;
-                let mut out = ConcAccepted { role, start, end: 0, arb: None, done_rx: None, obs: None, client: Some(client) };
+                let mut out = ConcAccepted {
+                    role,
+                    start,
+                    end: 0,
+                    arb: None,
+                    done_rx: None,
+                    obs: None,
+                    client: Some(client),
+                };
                 if let Some(session) = res {
                     out.obs = Some(Observed {
                         role: Some(session.export_ctx.role),
                         local_as_session: session.export_ctx.local_asn,
                         confed_id: session.export_ctx.confederation_id,
                         cluster: session.cluster_id,
-                        limits: session.prefix_counters.iter().map(|(f, (max, _))| (fid(*f), *max)).collect(),
-                        export: session
-                            .state
-                            .export_policy
-                            .load_full()
-                            .map(|a| (a.disposition == table::Disposition::Reject, a.policies.iter().map(|p| p.name.to_string()).collect())),
+                        limits: session
+                            .prefix_counters
+                            .iter()
+                            .map(|(f, (max, _))| (fid(*f), *max))
+                            .collect(),
+                        export: session.state.export_policy.load_full().map(|a| {
+                            (
+                                a.disposition == table::Disposition::Reject,
+                                a.policies.iter().map(|p| p.name.to_string()).collect(),
+                            )
+                        }),
                         ..Default::default()
                     });
                     // exactly what Global::serve does with an accepted connection
                     let arb = session.conn_arbiter.clone();
-                    let (done_tx, done_rx) = tokio::sync::oneshot::channel::<Option<(String, String)>>();
+                    let (done_tx, done_rx) =
+                        tokio::sync::oneshot::channel::<Option<(String, String)>>();
                     let jh = tokio::spawn(async move {
-                        let r = std::panic::AssertUnwindSafe(session.run(g, atx)).catch_unwind().await;
+                        let r = std::panic::AssertUnwindSafe(session.run(g, atx))
+                            .catch_unwind()
+                            .await;
                         let _ = done_tx.send(if r.is_err() { Some(take_panic()) } else { None });
                     });
                     match role {
@@ -3882,32 +4113,91 @@ async fn conc_round(rng: &mut Rng, rep: &mut Report, index: u64, trace: bool) {
             let a = n1c.addr.to_string();
             let mut ok = Vec::new();
             match kind {
-                ConcKind::Disable => ok.push(svc.disable_peer(tonic::Request::new(api::DisablePeerRequest { address: a, communication: String::new() })).await.is_ok()),
-                ConcKind::Enable => ok.push(svc.enable_peer(tonic::Request::new(api::EnablePeerRequest { address: a })).await.is_ok()),
-                ConcKind::Delete => ok.push(svc.delete_peer(tonic::Request::new(api::DeletePeerRequest { address: a, interface: String::new() })).await.is_ok()),
-                ConcKind::Add => ok.push(svc.add_peer(tonic::Request::new(api::AddPeerRequest { peer: Some(neigh_api(&n1c)) })).await.is_ok()),
+                ConcKind::Disable => ok.push(
+                    svc.disable_peer(tonic::Request::new(api::DisablePeerRequest {
+                        address: a,
+                        communication: String::new(),
+                    }))
+                    .await
+                    .is_ok(),
+                ),
+                ConcKind::Enable => ok.push(
+                    svc.enable_peer(tonic::Request::new(api::EnablePeerRequest { address: a }))
+                        .await
+                        .is_ok(),
+                ),
+                ConcKind::Delete => ok.push(
+                    svc.delete_peer(tonic::Request::new(api::DeletePeerRequest {
+                        address: a,
+                        interface: String::new(),
+                    }))
+                    .await
+                    .is_ok(),
+                ),
+                ConcKind::Add => ok.push(
+                    svc.add_peer(tonic::Request::new(api::AddPeerRequest {
+                        peer: Some(neigh_api(&n1c)),
+                    }))
+                    .await
+                    .is_ok(),
+                ),
                 ConcKind::Replace => {
-                    ok.push(svc.delete_peer(tonic::Request::new(api::DeletePeerRequest { address: a, interface: String::new() })).await.is_ok());
-                    ok.push(svc.add_peer(tonic::Request::new(api::AddPeerRequest { peer: Some(neigh_api(&n2c)) })).await.is_ok());
+                    ok.push(
+                        svc.delete_peer(tonic::Request::new(api::DeletePeerRequest {
+                            address: a,
+                            interface: String::new(),
+                        }))
+                        .await
+                        .is_ok(),
+                    );
+                    ok.push(
+                        svc.add_peer(tonic::Request::new(api::AddPeerRequest {
+                            peer: Some(neigh_api(&n2c)),
+                        }))
+                        .await
+                        .is_ok(),
+                    );
                 }
                 ConcKind::DelPrefix => ok.push(
-                    svc.delete_dynamic_neighbor(tonic::Request::new(api::DeleteDynamicNeighborRequest { prefix: pfxc.text.clone(), peer_group: "g0".into() })).await.is_ok(),
+                    svc.delete_dynamic_neighbor(tonic::Request::new(
+                        api::DeleteDynamicNeighborRequest {
+                            prefix: pfxc.text.clone(),
+                            peer_group: "g0".into(),
+                        },
+                    ))
+                    .await
+                    .is_ok(),
                 ),
                 ConcKind::AddPrefix => ok.push(
                     svc.add_dynamic_neighbor(tonic::Request::new(api::AddDynamicNeighborRequest {
-                        dynamic_neighbor: Some(api::DynamicNeighbor { prefix: pfxc.text.clone(), peer_group: "g0".into() }),
+                        dynamic_neighbor: Some(api::DynamicNeighbor {
+                            prefix: pfxc.text.clone(),
+                            peer_group: "g0".into(),
+                        }),
                     }))
                     .await
                     .is_ok(),
                 ),
                 ConcKind::MovePrefix => {
                     ok.push(
-                        svc.delete_dynamic_neighbor(tonic::Request::new(api::DeleteDynamicNeighborRequest { prefix: pfxc.text.clone(), peer_group: "g0".into() })).await.is_ok(),
+                        svc.delete_dynamic_neighbor(tonic::Request::new(
+                            api::DeleteDynamicNeighborRequest {
+                                prefix: pfxc.text.clone(),
+                                peer_group: "g0".into(),
+                            },
+                        ))
+                        .await
+                        .is_ok(),
                     );
                     ok.push(
-                        svc.add_dynamic_neighbor(tonic::Request::new(api::AddDynamicNeighborRequest {
-                            dynamic_neighbor: Some(api::DynamicNeighbor { prefix: pfxc.text.clone(), peer_group: "g1".into() }),
-                        }))
+                        svc.add_dynamic_neighbor(tonic::Request::new(
+                            api::AddDynamicNeighborRequest {
+                                dynamic_neighbor: Some(api::DynamicNeighbor {
+                                    prefix: pfxc.text.clone(),
+                                    peer_group: "g1".into(),
+                                }),
+                            },
+                        ))
                         .await
                         .is_ok(),
                     );
@@ -3937,7 +4227,11 @@ async fn conc_round(rng: &mut Rng, rep: &mut Report, index: u64, trace: bool) {
         addr,
         roles.len(),
         roles.iter().map(|r| role_name(*r)).collect::<Vec<_>>(),
-        if accept_first { "accept" } else { "configuration call" },
+        if accept_first {
+            "accept"
+        } else {
+            "configuration call"
+        },
         match mode {
             0 | 1 => ", both behind a holder of the global write lock",
             2 | 3 => ", both behind a holder of the global read lock",
@@ -3956,7 +4250,14 @@ async fn conc_round(rng: &mut Rng, rep: &mut Report, index: u64, trace: bool) {
             Ok(Err(e)) => {
                 if e.is_panic() {
                     let (loc, msg) = take_panic();
-                    rep.violation(&format!("C16/panic/{}:{}", loc, panic_class(&msg)), &format!("accept_connection panicked while a configuration call ran: {}", msg), Json::strs(steps.clone()));
+                    rep.violation(
+                        &format!("C16/panic/{}:{}", loc, panic_class(&msg)),
+                        &format!(
+                            "accept_connection panicked while a configuration call ran: {}",
+                            msg
+                        ),
+                        Json::strs(steps.clone()),
+                    );
                 }
                 return;
             }
@@ -3971,12 +4272,21 @@ async fn conc_round(rng: &mut Rng, rep: &mut Report, index: u64, trace: bool) {
         Ok(Err(e)) => {
             if e.is_panic() {
                 let (loc, msg) = take_panic();
-                rep.violation(&format!("C16/panic/{}:{}", loc, panic_class(&msg)), &format!("configuration handler panicked while a connection was accepted: {}", msg), Json::strs(steps.clone()));
+                rep.violation(
+                    &format!("C16/panic/{}:{}", loc, panic_class(&msg)),
+                    &format!(
+                        "configuration handler panicked while a connection was accepted: {}",
+                        msg
+                    ),
+                    Json::strs(steps.clone()),
+                );
             }
             return;
         }
         Err(_) => {
-            rep.inconclusive("watchdog: configuration call did not return while racing with accept_connection");
+            rep.inconclusive(
+                "watchdog: configuration call did not return while racing with accept_connection",
+            );
             return;
         }
     };
@@ -3984,7 +4294,11 @@ async fn conc_round(rng: &mut Rng, rep: &mut Report, index: u64, trace: bool) {
         steps.push(format!(
             "accept_connection({}) {} (seq {}..{}), configuration call seq {}..{} ok={:?}",
             role_name(a.role),
-            if a.arb.is_some() { "-> session" } else { "-> refused" },
+            if a.arb.is_some() {
+                "-> session"
+            } else {
+                "-> refused"
+            },
             a.start,
             a.end,
             cstart,
@@ -3999,7 +4313,11 @@ async fn conc_round(rng: &mut Rng, rep: &mut Report, index: u64, trace: bool) {
         } else {
             rep.count("conc:not-overlapping");
         }
-        rep.count(if a.arb.is_some() { "conc:accepted" } else { "conc:refused" });
+        rep.count(if a.arb.is_some() {
+            "conc:accepted"
+        } else {
+            "conc:refused"
+        });
     }
     if trace {
         for s in &steps {
@@ -4007,14 +4325,33 @@ async fn conc_round(rng: &mut Rng, rep: &mut Report, index: u64, trace: bool) {
         }
     }
     // ---- quiescence: both calls have returned.  What is the configuration now?
-    let (entry_arb, entry_admin_down, entry_dynamic, expected_as, send_max): (Option<Arc<std::sync::Mutex<ConnArbiter>>>, bool, bool, u32, BTreeMap<u32, usize>) = {
+    let (entry_arb, entry_admin_down, entry_dynamic, expected_as, send_max): (
+        Option<Arc<std::sync::Mutex<ConnArbiter>>>,
+        bool,
+        bool,
+        u32,
+        BTreeMap<u32, usize>,
+    ) = {
         let g = global.read().await;
         match g.peers.get(&addr) {
             Some(p) => {
                 let ctx = p.context.lock().unwrap();
                 let arb = ctx.conn_arbiter.clone();
-                let sm = arb.lock().unwrap().fsm().configured_send_max().iter().map(|(f, v)| (fid(*f), *v)).collect();
-                (Some(arb), p.admin_down, p.config.delete_on_disconnected, p.config.expected_remote_asn, sm)
+                let sm = arb
+                    .lock()
+                    .unwrap()
+                    .fsm()
+                    .configured_send_max()
+                    .iter()
+                    .map(|(f, v)| (fid(*f), *v))
+                    .collect();
+                (
+                    Some(arb),
+                    p.admin_down,
+                    p.config.delete_on_disconnected,
+                    p.config.expected_remote_asn,
+                    sm,
+                )
             }
             None => (None, false, false, 0, BTreeMap::new()),
         }
@@ -4024,10 +4361,23 @@ async fn conc_round(rng: &mut Rng, rep: &mut Report, index: u64, trace: bool) {
             ("round", Json::Int(index as i128)),
             ("steps", Json::strs(steps.clone())),
             ("neighbour", Json::s(format!("{:?}", n1))),
-            ("replacement", Json::s(if kind == ConcKind::Replace { format!("{:?}", n2) } else { String::new() })),
+            (
+                "replacement",
+                Json::s(if kind == ConcKind::Replace {
+                    format!("{:?}", n2)
+                } else {
+                    String::new()
+                }),
+            ),
             ("groups", Json::s(format!("{:?} {:?}", g0, g1))),
             ("detail", Json::s(extra)),
-            ("replay", Json::s(format!("VERIF_SEED=<shard seed> VERIF_PART=concurrent VERIF_ONLY={} VERIF_TRACE=1 <e2 test binary> event::verif::c16::run --exact --nocapture (timing dependent)", index))),
+            (
+                "replay",
+                Json::s(format!(
+                    "VERIF_SEED=<shard seed> VERIF_PART=concurrent VERIF_ONLY={} VERIF_TRACE=1 <e2 test binary> event::verif::c16::run --exact --nocapture (timing dependent)",
+                    index
+                )),
+            ),
         ])
     };
     for a in accepted.iter_mut() {
@@ -4037,15 +4387,31 @@ async fn conc_round(rng: &mut Rng, rep: &mut Report, index: u64, trace: bool) {
                 let (bytes, how) = drain_to_eof(c).await;
                 rep.eval();
                 if how == "timeout" {
-                    rep.inconclusive("watchdog: a refused connection was not closed (concurrent part)");
+                    rep.inconclusive(
+                        "watchdog: a refused connection was not closed (concurrent part)",
+                    );
                 } else if !bytes.is_empty() {
-                    rep.violation("C16/refused-bytes/concurrent", "a connection refused while the configuration changed received bytes", wit(&steps, &hex(&bytes)));
+                    rep.violation(
+                        "C16/refused-bytes/concurrent",
+                        "a connection refused while the configuration changed received bytes",
+                        wit(&steps, &hex(&bytes)),
+                    );
                 }
             }
             continue;
         };
         rep.eval();
-        rep.nontrivial(fnv64(format!("{:?}|{}|{}|{:?}|{}", kind, mode, role_name(a.role), n1, a.start < cend && cstart < a.end).as_bytes()));
+        rep.nontrivial(fnv64(
+            format!(
+                "{:?}|{}|{}|{:?}|{}",
+                kind,
+                mode,
+                role_name(a.role),
+                n1,
+                a.start < cend && cstart < a.end
+            )
+            .as_bytes(),
+        ));
         let owner_current = entry_arb.as_ref().is_some_and(|e| Arc::ptr_eq(e, &arb));
         let told = told_to_close(&arb, a.role);
         let mut must_end = false;
@@ -4081,11 +4447,17 @@ async fn conc_round(rng: &mut Rng, rep: &mut Report, index: u64, trace: bool) {
                         Ok(r) => {
                             rep.count("conc:closed-session-ended");
                             if let Ok(Some((loc, msg))) = r {
-                                rep.violation(&format!("C16/panic/{}:{}", loc, panic_class(&msg)), &format!("PeerSession::run panicked: {}", msg), wit(&steps, ""));
+                                rep.violation(
+                                    &format!("C16/panic/{}:{}", loc, panic_class(&msg)),
+                                    &format!("PeerSession::run panicked: {}", msg),
+                                    wit(&steps, ""),
+                                );
                             }
                             a.done_rx = None;
                         }
-                        Err(_) => rep.inconclusive("watchdog: a session told to shut down did not end (concurrent part)"),
+                        Err(_) => rep.inconclusive(
+                            "watchdog: a session told to shut down did not end (concurrent part)",
+                        ),
                     }
                 }
             }
@@ -4118,9 +4490,17 @@ async fn conc_round(rng: &mut Rng, rep: &mut Report, index: u64, trace: bool) {
                 }
                 v
             }
-            ConcKind::Replace => vec![expectation(&None, Some(&n1), None, &addr), expectation(&None, Some(&n2), None, &addr)],
-            ConcKind::DelPrefix | ConcKind::AddPrefix => vec![expectation(&None, None, Some(&g0), &addr)],
-            ConcKind::MovePrefix => vec![expectation(&None, None, Some(&g0), &addr), expectation(&None, None, Some(&g1), &addr)],
+            ConcKind::Replace => vec![
+                expectation(&None, Some(&n1), None, &addr),
+                expectation(&None, Some(&n2), None, &addr),
+            ],
+            ConcKind::DelPrefix | ConcKind::AddPrefix => {
+                vec![expectation(&None, None, Some(&g0), &addr)]
+            }
+            ConcKind::MovePrefix => vec![
+                expectation(&None, None, Some(&g0), &addr),
+                expectation(&None, None, Some(&g1), &addr),
+            ],
         };
         rep.eval();
         rep.count("conc:judged:setup");
@@ -4144,7 +4524,9 @@ async fn conc_round(rng: &mut Rng, rep: &mut Report, index: u64, trace: bool) {
     for a in accepted.iter_mut() {
         if let Some(rx) = a.done_rx.as_mut() {
             if tokio::time::timeout(WATCHDOG, rx).await.is_err() {
-                rep.inconclusive("watchdog: a session did not end after its client closed (concurrent part)");
+                rep.inconclusive(
+                    "watchdog: a session did not end after its client closed (concurrent part)",
+                );
                 return;
             }
         }
@@ -4153,16 +4535,30 @@ async fn conc_round(rng: &mut Rng, rep: &mut Report, index: u64, trace: bool) {
     rep.eval();
     match g.peers.get(&addr) {
         Some(p) if p.config.delete_on_disconnected => {
-            rep.violation("C16/dynamic-cleanup/entry-remains/concurrent", "a dynamic neighbour's entry is still there after all its connections ended", wit(&steps, ""));
+            rep.violation(
+                "C16/dynamic-cleanup/entry-remains/concurrent",
+                "a dynamic neighbour's entry is still there after all its connections ended",
+                wit(&steps, ""),
+            );
         }
         Some(_) => {
             if matches!(kind, ConcKind::Delete) {
-                rep.violation("C16/concurrent/deleted-neighbour-still-configured", "DeletePeer returned successfully but the neighbour is still in Global.peers", wit(&steps, ""));
+                rep.violation(
+                    "C16/concurrent/deleted-neighbour-still-configured",
+                    "DeletePeer returned successfully but the neighbour is still in Global.peers",
+                    wit(&steps, ""),
+                );
             }
         }
         None => {
-            if matches!(kind, ConcKind::Disable | ConcKind::Enable) || (matches!(kind, ConcKind::Add | ConcKind::Replace) && cok.last() == Some(&true)) {
-                rep.violation("C16/dynamic-cleanup/configured-neighbour-removed/concurrent", "a configured neighbour disappeared from Global.peers", wit(&steps, ""));
+            if matches!(kind, ConcKind::Disable | ConcKind::Enable)
+                || (matches!(kind, ConcKind::Add | ConcKind::Replace) && cok.last() == Some(&true))
+            {
+                rep.violation(
+                    "C16/dynamic-cleanup/configured-neighbour-removed/concurrent",
+                    "a configured neighbour disappeared from Global.peers",
+                    wit(&steps, ""),
+                );
             }
         }
     }
@@ -4181,16 +4577,27 @@ fn concurrent_part(rep: &mut Report, params: &Params) {
                 continue;
             }
         }
-        let mut r = Rng::new((params.seed ^ 0xC16C).wrapping_mul(1_000_003).wrapping_add(i));
+        let mut r = Rng::new(
+            (params.seed ^ 0xC16C)
+                .wrapping_mul(1_000_003)
+                .wrapping_add(i),
+        );
         // real threads: the accept tasks and the configuration call run in parallel
-        let rt = tokio::runtime::Builder::new_multi_thread().worker_threads(3).enable_all().build().expect("runtime");
+        let rt = tokio::runtime::Builder::new_multi_thread()
+            .worker_threads(3)
+            .enable_all()
+            .build()
+            .expect("runtime");
         let res = std::panic::catch_unwind(std::panic::AssertUnwindSafe(|| {
             rt.block_on(conc_round(&mut r, rep, i, trace));
         }));
         rt.shutdown_background();
         if res.is_err() {
             let (loc, msg) = take_panic();
-            rep.inconclusive(&format!("harness panic in the concurrent part at {}: {}", loc, msg));
+            rep.inconclusive(&format!(
+                "harness panic in the concurrent part at {}: {}",
+                loc, msg
+            ));
         }
     }
 }
